@@ -843,6 +843,16 @@ def run_real(gen, drop_failed=False, watch=True):
     return obs
 
 
+def embedded_tree(obs):
+    """Number of names of the /EmbeddedFiles name tree of the catalog (`none`: no such tree; `-`: nothing was written)."""
+    if obs['write'] != 'ok':
+        return '-'
+    for entry in obs.get('catalog') or []:
+        if entry.startswith('Names/EmbeddedFiles:'):
+            return entry.split(':')[1]
+    return 'none'
+
+
 def show_real(gen, obs, absent):
     def log(events):
         return '[' + ','.join(events) + ']'
@@ -853,7 +863,7 @@ def show_real(gen, obs, absent):
     opens = '-' if obs['write'] == 'err:FileNotFoundError' else '[' + ','.join(enc(p) for p in obs['opens']) + ']'
     text = (f'css={log(render_css)} rules=[{",".join(map(str, obs["rules"]))}] fonts=[] installed={obs["installed"]} '
             f'img={log(render_img)} boxes=[{",".join(obs["boxes"])}] render={obs["render"]} '
-            f'att={log(obs["log_write"]["att"])} paint={log(obs["log_write"]["paint"])} embedded=[{",".join(obs["embedded"])}] annots=[{",".join(obs["annots"])}] '
+            f'att={log(obs["log_write"]["att"])} paint={log(obs["log_write"]["paint"])} embedded=[{",".join(obs["embedded"])}] tree={embedded_tree(obs)} annots=[{",".join(obs["annots"])}] '
             f'opens={opens} write={obs["write"]} absent={absent}')
     if stray:
         text += f' STRAY-FETCH={log(stray)}'
